@@ -62,6 +62,11 @@ AUTO_INLINE_DEPTH = 4
 EXTERNAL_SIGS = {
     "scipy.sparse.csgraph.breadth_first_order": ("csgraph", "i_start", "directed", "return_predecessors"),
     "numpy.full": ("shape", "fill_value", "dtype"),
+    "numpy.ones": ("shape", "dtype"),
+    "numpy.zeros": ("shape", "dtype"),
+    "numpy.empty": ("shape", "dtype"),
+    "numpy.array": ("object", "dtype"),
+    "numpy.arange": ("start", "stop", "step", "dtype"),
     "numpy.repeat": ("a", "repeats", "axis"),
     "numpy.isin": ("element", "test_elements"),
     "numpy.concatenate": ("arrays", "axis"),
@@ -366,6 +371,7 @@ class ANF:
             if isinstance(s, ast.FunctionDef):
                 k_ = "%s@%d" % (s.name, len(self._localfns))
                 self._localfns[k_] = s
+                self.res.__dict__.setdefault("localfns", {})[k_] = s
                 env[s.name] = ("localfn", k_)
             if isinstance(s, ast.Delete):
                 for t in s.targets:
@@ -431,6 +437,23 @@ class ANF:
             env[t.id] = C(self.consts[t.id]) if t.id in self.consts and not aug else v
             return
         if isinstance(t, (ast.Tuple, ast.List)):
+            stars = [k for k, e in enumerate(t.elts) if isinstance(e, ast.Starred)]
+            if len(stars) == 1:
+                # a, b, *rest, z = v
+                ks, n = stars[0], len(t.elts)
+                for k, e in enumerate(t.elts):
+                    if k < ks:
+                        self.assign(e, read(v, (C(k),)), env, cond, loops, stmt)
+                    elif k == ks:
+                        after = n - 1 - ks
+                        if v[0] in ("tuple", "list"):
+                            part = ("list", tuple(v[1][ks:len(v[1]) - after]))
+                        else:
+                            part = ("idx", v, (("slice", C(ks), C(-after) if after else C(None), C(None)),))
+                        self.assign(e.value, part, env, cond, loops, stmt)
+                    else:
+                        self.assign(e, read(v, (C(k - n),)), env, cond, loops, stmt)
+                return
             for k, e in enumerate(t.elts):
                 if isinstance(e, ast.Starred):
                     raise Unsupported("starred assignment target")
@@ -720,6 +743,9 @@ class ANF:
         if is_const(a) and b[0] in ("list", "tuple", "set") and all(is_const(x) for x in b[1]) and sym in ("in", "not in"):
             r = any(a[1] == x[1] for x in b[1])
             return C(r if sym == "in" else not r)
+        if sym in ("in", "not in") and b[0] in ("list", "tuple", "set") and len(b[1]) == 1:
+            # membership in a one-element display is (in)equality with the element
+            sym, b = ("==" if sym == "in" else "!="), b[1][0]
         if sym in ("==", "!="):
             a, b = sorted([a, b], key=key)
         elif sym in FLIP and key(a) > key(b):
@@ -1038,12 +1064,24 @@ def read(b, idx, _depth=0):
             b = b[1]
             continue
         break
+    if isinstance(b, tuple) and b and b[0] == "idx" and len(b[2]) == 1 and b[2][0][0] == "slice" and len(idx) == 1 \
+            and idx[0][0] != "slice" and is_const(b[2][0][1]) and isinstance(b[2][0][1][1], int) and b[2][0][1][1] >= 0 \
+            and b[2][0][3] == C(None) and b[1][0] in ("call", "proj") and not (is_const(idx[0]) and isinstance(idx[0][1], int) and idx[0][1] < 0):
+        # element i of the tail v[a:] of a tuple-valued result is element i + a
+        return read(b[1], (mk_opn("+", [idx[0], C(b[2][0][1][1])]),), _depth + 1)
     if isinstance(b, tuple) and b and b[0] == "ite" and len(b) == 4 and _depth < 3 \
             and any(isinstance(x, tuple) and x and x[0] in ("upd", "ite") for x in b[2:4]):
         # a container that was updated differently on the two arms of an `if`: read each arm
         ra, rb = read(b[2], idx, _depth + 1), read(b[3], idx, _depth + 1)
         return ra if key(ra) == key(rb) else ("ite", b[1], ra, rb)
     return ("idx", b, idx)
+
+
+def ite_leaves(t, _conds=()):
+    """[(path of (condition, polarity), leaf)] of a conditional value"""
+    if isinstance(t, tuple) and t and t[0] == "ite" and len(t) == 4:
+        return ite_leaves(t[2], _conds + ((t[1], True),)) + ite_leaves(t[3], _conds + ((t[1], False),))
+    return [(_conds, t)]
 
 
 def base_of(t):
